@@ -215,6 +215,8 @@ def run_regeneration(b, tier, seed):
                 yield ('binary', bb)
             for i in range(len(frames)):
                 yield ('frame', i)
+            # the legacy CSV-file assertion: a frame written as CSV, checked against a CSV reference of kind `kind`
+            yield ('csvfile', 0)
 
         def do_assert(what, content, refname, kind):
             what, _, opt = what.partition('+')
@@ -230,6 +232,10 @@ def run_regeneration(b, tier, seed):
                 rt.assertBinaryFileCorrect(mk_actual('act.bin', content, True), refname, kind=kind)
             elif what == 'frame':
                 rt.assertDataFrameCorrect(frames[content], refname, kind=kind)
+            elif what == 'csvfile':
+                p = os.path.join(actdir, 'act.csv')
+                frames[content].to_csv(p, index=False)
+                rt.assertCSVFileCorrect(p, refname, kind=kind)
 
         def refs_of(what, refname):
             if what == 'textfiles':
@@ -238,7 +244,7 @@ def run_regeneration(b, tier, seed):
 
         for what, content in scenarios():
             refname = {'string': 'r.txt', 'textfile': 'r.txt', 'textfiles': 'r.txt',
-                       'binary': 'r.bin', 'frame': 'r.parquet'}[what.partition('+')[0]]
+                       'binary': 'r.bin', 'frame': 'r.parquet', 'csvfile': 'r.csv'}[what.partition('+')[0]]
             w = {'assertion': what, 'content': repr(content)[:120]}
             for kind in (None, 'table'):
                 # --- normal mode, for each history of the reference file -----------
